@@ -141,7 +141,9 @@ struct Fate {
 	uint64_t dup_delay = 0;      // us between copies
 	int trunc = -1;              // new length, -1 = none
 	int flipbit = -1;            // bit index, -1 = none
-	bool is_default() const { return !drop && !dup && !extra_delay && trunc < 0 && flipbit < 0; }
+	bool has_replace = false;    // on-path party substitutes the whole datagram
+	Bytes replace;
+	bool is_default() const { return !drop && !dup && !extra_delay && trunc < 0 && flipbit < 0 && !has_replace; }
 };
 
 struct FaultCfg {
@@ -192,6 +194,9 @@ struct Sim {
 	uint64_t dgram_serial = 0;
 	// optional in-path rewrite hook (relay transformations); returns false to drop
 	std::function<bool(Dgram &)> path_filter;
+	// generative mode only: a hostile on-path party may decide to replace this datagram
+	std::function<void(const Dgram &, Fate &)> gen_mutator;
+	std::function<void(const std::pair<int,uint64_t> &, const Fate &)> on_fired;   // live log for runs that die
 
 	// receive buffer residue (C12)
 	int residue_mode = 0;           // 0 zeros, 1 0xFF, 2 marker, 3 previous datagram of other source
